@@ -67,7 +67,7 @@ func c20One(lines []string) (res c20Out) {
 		verdict := ""
 		if !(cont && line != "") {
 			text := prev + line
-			if text != "" {
+			if strings.TrimSpace(text) != "" {
 				_, err := py.Compile(text+"\n", "<stdin>", py.SingleMode, 0, true)
 				switch {
 				case err == nil:
